@@ -8,30 +8,29 @@ From TL Require Import Lib.Base Lib.GenTypes Gen.MagicGen Model.MagicNum Model.M
 (* ------------------------------------------------------------------ exactness *)
 Definition flags_off (lg : mlang) (q : mquirks) : Prop :=
   match lg with
-  | MPy => q_py_bool_is_number q = false /\ q_py_upper_neg_flagged q = false /\ q_py_upper_ann_flagged q = false
-           /\ q_py_upper_tuple_flagged q = false
-  | MTs => q_ts_hex_e_float q = false /\ q_ts_bigint_dropped q = false /\ q_ts_test_marker_anywhere q = false
-  | MRs => q_rs_hex_suffix_clash q = false
+  | MPy => q_py_upper_neg_flagged q = false /\ q_py_upper_ann_flagged q = false /\ q_py_upper_tuple_flagged q = false
+  | MTs => q_ts_test_marker_anywhere q = false
+  | MRs => True
   end.
 
 Theorem report_exact lg q cfg f :
   flags_off lg q -> file_good lg f = true -> report lg q cfg f = spec_report lg cfg f.
 Proof.
   destruct lg; cbn [flags_off report].
-  - intros [H1 [H2 [H3 H4]]]. apply py_report_exact; assumption.
-  - intros [H1 [H2 H3]]. apply ts_report_exact; assumption.
-  - intros H. apply rs_report_exact; assumption.
+  - intros [H2 [H3 H4]]. apply py_report_exact; assumption.
+  - intros H3. apply ts_report_exact; assumption.
+  - intros _. apply rs_report_exact.
 Qed.
 
 (* the input classes outside which a flag that is on cannot matter *)
 Definition file_plain (lg : mlang) (q : mquirks) (f : file) : bool :=
-  match lg with MPy => py_file_plain q f | MTs => ts_file_plain q f | MRs => rs_file_plain q f end.
+  match lg with MPy => py_file_plain q f | MTs => ts_file_plain q f | MRs => true end.
 
 Theorem report_guarded lg q cfg f :
   file_good lg f = true -> file_plain lg q f = true -> report lg q cfg f = spec_report lg cfg f.
 Proof.
   destruct lg; cbn [file_plain report]; intros Hg Hp;
-    [apply py_report_guarded | apply ts_report_guarded | apply rs_report_guarded]; assumption.
+    [apply py_report_guarded | apply ts_report_guarded | apply rs_report_exact]; assumption.
 Qed.
 
 (* ------------------------------------------------------------------ what the specification demands *)
@@ -117,7 +116,7 @@ Section Delta.
 
   Lemma py_site_delta t s : py_site_report q c2 t s = filter (keep a) (py_site_report q c1 t s).
   Proof.
-    rewrite !py_site_report_eq. destruct (negb (val_isinstance (q_py_bool_is_number q) (p_val s) py_numeric_types)); [reflexivity|].
+    rewrite !py_site_report_eq. destruct (negb (val_is (p_val s) py_numeric_types (excl (q_py_bool_is_number q) py_numeric_excluded))); [reflexivity|].
     assert (E : py_exempt q c2 s = py_exempt q c1 s) by (unfold py_exempt, py_small_in; rewrite Hmax; reflexivity).
     rewrite Hmem, E.
     assert (N : rval_names (rval_of (p_val s)) a = num_eqb (val_num (p_val s)) a) by (destruct (p_val s); reflexivity).
@@ -205,20 +204,20 @@ Proof.
     rewrite E0, E1; cbn [andb]; apply Z.leb_le in E2; apply Z.leb_le; lia.
 Qed.
 
-(* ------------------------------------------------------------------ extract_total, stated for the flags off *)
-Theorem ts_extract_total l raw :
-  lit_ok MTs l = true -> lit_raw l = Some raw -> ts_extract false false (lit_chars l) = Some raw.
+(* ------------------------------------------------------------------ extract_total *)
+(* for the property's reading (flags false) and for the tables found in the source (flags true) alike *)
+Theorem ts_extract_total pq bq l raw :
+  lit_ok MTs l = true -> lit_raw l = Some raw -> ts_extract pq bq (lit_chars l) = Some raw.
 Proof.
-  intros Hok Hr. apply (ts_lit_extract m_ideal l raw Hok); [|exact Hr].
-  unfold ts_lit_plain. destruct l; try reflexivity. cbn [m_ideal q_ts_hex_e_float q_ts_bigint_dropped negb orb andb].
-  unfold ts_int_guard. destruct r; reflexivity.
+  intros Hok Hr.
+  exact (ts_lit_extract (Build_mquirks false false false false pq bq false false) l raw Hok Hr).
 Qed.
 
-Theorem rs_extract_total l raw :
-  lit_ok MRs l = true -> lit_raw l = Some raw -> rs_extract false (rs_node_type l) (lit_chars l) = Some raw.
+Theorem rs_extract_total tbl l raw :
+  lit_ok MRs l = true -> lit_raw l = Some raw -> rs_extract tbl (rs_node_type l) (lit_chars l) = Some raw.
 Proof.
-  intros Hok Hr. apply (rs_lit_extract m_ideal l raw Hok); [|exact Hr].
-  unfold rs_lit_plain. destruct l; try reflexivity. cbn [m_ideal q_rs_hex_suffix_clash]. destruct r; reflexivity.
+  intros Hok Hr.
+  exact (rs_lit_extract (Build_mquirks false false false false false false false tbl) l raw Hok Hr).
 Qed.
 
 (* what is reported is reported once per occurrence, on its line, naming its value — for the model with the flags off *)
